@@ -34,6 +34,9 @@ package pinning
 //@   ensures forall b boson.Address :: b != addrs[0] ==> pinCnt(pinGen, b) == pinCnt(old(pinGen), b)
 //@   ensures err == nil && int(mode) == 2 ==> pinCnt(pinGen, addrs[0]) == pinCnt(old(pinGen), addrs[0]) + 1
 //@   ensures err == nil && int(mode) == 3 ==> pinCnt(pinGen, addrs[0]) == pinCnt(old(pinGen), addrs[0]) - 1
+//@   ensures errIs(err, storage.ErrNotFound) ==> notStored(pinGen, addrs[0])
+//@ # notStored(g, a): in version g the store said it does not hold chunk a
+//@ spec func notStored(g int, a boson.Address) bool
 
 //@ # ---- assumed: the traverser calls the visitor for chunks, and does nothing else --------------
 //@ extern func (github.com/gauss-project/aurorafs/pkg/traversal.Traverser).Traverse
@@ -49,6 +52,7 @@ package pinning
 //@   iterinv counters-only-grow: forall b boson.Address :: pinCnt(pinGen, b) >= pinCnt(pre(pinGen), b)
 //@   ensures only-this-chunk: forall b boson.Address :: b != leaf ==> pinCnt(pinGen, b) == pinCnt(old(pinGen), b)
 //@   ensures one-more-or-same: pinCnt(pinGen, leaf) == pinCnt(old(pinGen), leaf) + 1 || pinCnt(pinGen, leaf) == pinCnt(old(pinGen), leaf)
+//@   ensures every-visit-of-a-stored-chunk-counts: result == nil ==> pinCnt(pinGen, leaf) == pinCnt(old(pinGen), leaf) + 1 || notStored(pinGen, leaf)
 
 //@ func (*Service).CreatePin
 //@   property C15
